@@ -36,6 +36,7 @@ const (
 // Log messages, keys, and values.
 const (
 	LMAlreadyConnected = "Connection already established"
+	LMCanceled         = "Connection canceled before it was established"
 	LMDisconnected     = "Disconnected"
 	LMDisconnecting    = "Previous shell disconnecting"
 	LMIncorrectKey     = "Incorrect key"
